@@ -618,28 +618,33 @@ def _check_getters(ctx, case, model, cname, P, reports):
     """get_lengthscale_and_var, get_kernel_type and evaluate_kernel against the kernel modules' CURRENT state"""
     cls, m = case["cls"], case["m"]
     _check_lsvar(ctx, case, model, cname, reports)
+    # get_kernel_type / evaluate_kernel are not named by the property: a crash or an unexpected kernel name is
+    # recorded as information only (observed: the model list's get_kernel_type raises AttributeError, its
+    # `self.model` being an IndependentModelList without `covar_module`); evaluate_kernel is the source of the
+    # exported Gram tables, so an answer that differs from the kernel module evaluated NOW is a broken
+    # correspondence (F)
     try:
-        kt = model.get_kernel_type()
-        if kt != "RBF":
-            _viol(ctx, f"kernel-type:{cname}", f"get_kernel_type() = {kt!r} for the RBF kernel the wrapper builds", case)
+        if model.get_kernel_type() != "RBF":
+            ctx.count("kernel_type_not_rbf_info")
     except Exception as e:  # noqa: BLE001
-        _viol(ctx, f"getter-crash:{cname}:{core.exc_key(e)}", f"get_kernel_type raised {type(e).__name__}", case)
+        ctx.count(f"getter_crash_info:get_kernel_type:{type(e).__name__}")
     try:
         Pt = np.asarray(P, dtype=float)
         Xt = torch.tensor(Pt, dtype=torch.float64)
         with torch.no_grad():
-            K = np.asarray(model.evaluate_kernel(Pt))
             if cls == "mlist":
+                K = np.asarray(model.evaluate_kernel(Xt))
                 Ks = [g.covar_module(Xt, Xt).to_dense().numpy(force=True) for g in model.model.models]
                 n = len(Pt)
                 ref = np.stack(Ks)[:, :, None, :].repeat(m, axis=2).reshape(m * n, m * n)
             else:
+                K = np.asarray(model.evaluate_kernel(Pt))
                 ref = model.model.covar_module(Xt, Xt).to_dense().numpy(force=True)
         if K.shape != ref.shape or not np.array_equal(K, ref):
             _viol(ctx, f"evaluate-kernel-stale:{cname}", "evaluate_kernel(X) differs from the kernel module evaluated now",
-                  case)
+                  case, kind="F")
     except Exception as e:  # noqa: BLE001
-        _viol(ctx, f"getter-crash:{cname}:{core.exc_key(e)}", f"evaluate_kernel raised {type(e).__name__}", case)
+        ctx.count(f"getter_crash_info:evaluate_kernel:{type(e).__name__}")
     ctx.count("getter_queries")
 
 
